@@ -26,6 +26,15 @@ def pristine_parse(texts):
     return out
 
 
+_PRISTINE = {}
+
+
+def pristine_one(t):
+    if t not in _PRISTINE:
+        _PRISTINE[t] = pristine_parse([t])[0]
+    return _PRISTINE[t]
+
+
 def script_pool(ctx, n):
     r = rng("c13-pool")
     g = gen_scripts.Gen(table_of(ctx), r)
@@ -58,10 +67,11 @@ def run(ctx):
     for s in range(nseq):
         seq = [r.choice(pool) for _ in range(r.randint(2, 6))]
         reused = Parser()
+        standby = [Parser(), Parser()]      # objects created before the sequence starts and used somewhere in it
         hist = []
         for i, t in enumerate(seq):
             which = r.random()
-            p = reused if which < 0.7 else Parser()
+            p = reused if which < 0.6 else (r.choice(standby) if which < 0.8 else Parser())
             a = pyref.parse_answer(t, parser=p)
             evals += 1
             nontriv += 1 if i >= 1 else 0
@@ -123,6 +133,55 @@ def run(ctx):
                         viol.append({"history_hex": [first.hex()], "history": [first.decode("latin-1")], "input_hex": q.hex(), "input": q.decode("latin-1"),
                                      "what": "outcome depends on history: after %r (%s) the probe gives %s, alone %s" % (
                                          first.decode("latin-1")[-60:], a1[:40], a[:100], probe_alone[q][:100])})
+    # values that are legal for one command's argument and not for the same-named argument of another command (derived from
+    # the live table): a use of the first must not make the second acceptable, in this process, on any Parser
+    table = table_of(ctx)
+    byname = {}
+    for d in table:
+        for a_ in d["args"]:
+            if a_["values"] and "tag" in a_["types"]:
+                byname.setdefault(a_["name"], []).append((d, a_))
+    allexts = sorted({d["extension"] for d in table if d["extension"]} | {a_["extension"] for d in table for a_ in d["args"] if a_.get("extension")}
+                     | {e for d in table for a_ in d["args"] for _, e in a_["extValues"]})
+    req_all = b"require [" + b",".join(b'"%s"' % e.encode() for e in allexts) + b"];\n"
+    g2 = gen_scripts.Gen(table, r)
+
+    def minimal_use(d, a_, tag):
+        toks = [d["name"].encode(), tag.encode()]
+        ex = a_.get("extra")
+        if ex and (not ex.get("validFor") or tag in ex["validFor"]):
+            toks.append((ex.get("values") or ['"x"'])[0].encode())
+        for ra in d["args"]:
+            if ra["required"]:
+                if ra["types"] == ["test"]:
+                    toks.append(b"true")
+                elif ra["types"] == ["testlist"]:
+                    toks += [b"(", b"true", b")"]
+                else:
+                    toks += g2.required_value(ra)
+        body = b" ".join(toks)
+        return req_all + (b"if " + body + b" { keep; }" if d["kind"] == "test" else body + b";")
+
+    npairs = 0
+    for name, users in byname.items():
+        for (da, aa) in users:
+            for (db, ab) in users:
+                if da is db:
+                    continue
+                for tag in [v for v in aa["values"] if v not in (ab["values"] or []) and v not in [k for k, _ in ab["extValues"]]]:
+                    first, probe = minimal_use(da, aa, tag), minimal_use(db, ab, tag)
+                    alone = pristine_one(probe)
+                    for same_parser in (True, False):
+                        p1 = Parser()
+                        pyref.parse_answer(first, parser=p1)
+                        a = pyref.parse_answer(probe, parser=(p1 if same_parser else Parser()))
+                        evals += 1
+                        nontriv += 1
+                        npairs += 1
+                        if a != alone:
+                            viol.append({"history_hex": [first.hex()], "history": [first.decode("latin-1")], "input_hex": probe.hex(), "input": probe.decode("latin-1"),
+                                         "what": "outcome depends on history: after a use of %s %s, `%s %s` gives %s; in a pristine interpreter %s" % (
+                                             da["name"], tag, db["name"], tag, a[:80], alone[:80])})
     # pristine-interpreter comparison for a sample of scripts (guards the in-process reference itself)
     sample = r.sample(pool, 25 if ctx.tier == "quick" else 200)
     pr = pristine_parse(sample)
